@@ -4,6 +4,19 @@ import LitexModel.WaitTimer
   consecutive cycles `wait` has been held up to now.  Hence `done` exactly after `t` consecutive waiting
   cycles, never before, and the count is reloaded by any cycle with `wait = 0`.
 -/
+namespace Litex
+
+/-- Induction from the right (core Lean has no `List.reverseRecOn`). -/
+theorem snoc_induction {α : Type} {P : List α → Prop} (nil : P [])
+    (snoc : ∀ (l : List α) (a : α), P l → P (l ++ [a])) : ∀ l, P l := by
+  intro l
+  rw [← List.reverse_reverse l]
+  induction l.reverse with
+  | nil => exact nil
+  | cons a l ih => rw [List.reverse_cons]; exact snoc _ _ ih
+
+end Litex
+
 namespace Litex.WaitTimer
 
 theorem next_spec (t k : Nat) (w : Bool) :
